@@ -50,6 +50,18 @@ DAEMON_ASSUME = ("end-to-end stage: the built binary is fed through two real FIF
                  "established by a sentinel session written last (both pipelines are sequential)")
 
 
+READER_ASSUME = ("end-to-end stage, reader-level input classes (harness/daemon/reader.go, every fourth scenario): records of 4 KiB / 8 KiB / 64 KiB / 128 KiB "
+                 "(at, just around and well beyond the size) on both pipes - unrecognised sshd lines whose body is, behind every 128-byte boundary of the record, a complete "
+                 "accepted-login message for another session's sshd PID (nothing must come of them), certificate logins with key ids of that length (the whole key id is the "
+                 "event's userID), EXECVE records of 4-9 KiB and some of 20-70 KiB (rendered as the library renders the text written: C14's e2e:render); bursts of hundreds of "
+                 "records in one write(2), beyond one page and beyond the pipe's capacity; a writer of the sshd pipe that closes in the middle of an accepted-login record: the "
+                 "daemon may end (end-of-stream is a failure by design; the oracles then apply to what was written before) or go on with the next writer, whose records - the complete "
+                 "login of another process, then the first process' own - must then yield exactly their events and the first process' audit session exactly its identity. Stated, not "
+                 "proved: bytes a writer left unterminated when it closed are not a record and not part of the next writer's first record. C06 / C11 on this stage: the six message forms "
+                 "of the daemon generator (accepted password / publickey / certificate, failed password, invalid user, maximum attempts), expected fields by construction; a UserLogin that "
+                 "no recognised line written yields is reported for both")
+
+
 def conc_extra(pid, n_quick=5, n_thorough=60):
     """Concurrent stage: forced single-preemption schedules on the real correlator under the race detector,
     judged by the property's own oracle on the final outcome."""
@@ -95,7 +107,9 @@ def tracker(pid, n_quick=160, n_thorough=3000):
 for _p in ("C01", "C02", "C04", "C09", "C16"):
     tracker(_p)
 
+SPECS["C01"].search_extra = [("daemon", {}, ["-prop", "C01", "-n", "160"], False)]
 SPECS["C01"].assumptions = SPECS["C01"].assumptions + [
+    READER_ASSUME,
     "which sshd PID a login carries is part of C01's obligations: C01_login_pid_is_record_first_column / C01_tracker_login_pid_is_record_first_column / "
     "C01_framed_record_login (Proofs/RecordLogin.v) compose the translations regenerated from SyslogIngester.Process / ParseSyslogMessage (Gen/PureFuncs.v) and "
     "ProcessSshdLogEntry (Gen/EntryMetrics.v) with the sshd model: for every record, a forwarded login carries strconv.Atoi of the record's first column; the "
@@ -149,6 +163,12 @@ def sshd(pid, n_quick=360, n_thorough=6000):
     extra = daemon_extra(pid) if pid == "C07" else []
     search_extra = []
     assume = list(SSHD_ASSUME)
+    if pid in ("C06", "C11"):
+        # round 7: the property's statement is about what the DAEMON emits for the lines on its pipe; the reader between pipe and
+        # processor is covered by <ID>_records_reach_processor_unchanged (obligation) and by the daemon stage (failing inputs)
+        extra = daemon_extra(pid, 12, 240)
+        search_extra = [("daemon", {}, ["-prop", pid, "-n", "120"], False)]
+        assume += [DAEMON_ASSUME, READER_ASSUME]
     if pid == "C07":
         extra = extra + [("sshd", {}, stalled_writer(pid, [200, 600, 1200, 2500, 5500, 11000], 4), False, stalled_writer(pid, [200, 600, 1200]))]
         search_extra = [("sshd", {}, stalled_writer(pid, [2500, 5500, 11000, 31000]), False)]
@@ -263,6 +283,10 @@ reg(Spec(
 
 reg(Spec(
     "C14", "Props/C14.v", harness="render",
+    # round 7: the records reach the processor through the daemon's pipe reader (C14_records_reach_processor_unchanged); daemon stage: every
+    # UserAction of the built daemon's events file against the library's rendering of the record group written (harness/daemon/render.go)
+    thorough_extra=daemon_extra("C14", 12, 240),
+    search_extra=[("daemon", {}, ["-prop", "C14", "-n", "120"], False)],
     overlay={"processors/auditd/sessiontracker/verif_export.go": "harness/overlay/sessiontracker_verif.go",
              "processors/auditd/verif_export.go": "harness/overlay/auditd_verif.go"},
     args_quick=["-n", "150"], args_thorough=["-n", "1500"], args_search=["-n", "800"],
@@ -270,6 +294,7 @@ reg(Spec(
         "go-libaudit (ParseLogLine, Reassembler, CoalesceMessages, ResolveIDs) is not modelled: the model starts at the coalesced event; the library is the oracle for action/how/object and the argument list",
         "identity content = subjects, source{type,value,extra}, target as key-sorted association lists; JSON omitempty makes empty and absent equal",
         "non-mutation of the stored Go login object is checked by deep-copy comparison in the harness (a correspondence obligation), the model-level statement is C14_non_mutation",
+        DAEMON_ASSUME, READER_ASSUME,
     ],
     modelled=["sessiontracker.go: user.toAuditEvent, writeAndClearCache", "reassembler_callback.go: ReassemblyComplete (exercised, library parts as oracle)"],
     extra_targets=["Model/ToEventCheck.vo"],
